@@ -66,7 +66,8 @@ class Builder:
         if existing is None:
             for e in reversed(entries): self.PrependVOffsetT(e)
             self.PrependVOffsetT(objsize); self.PrependVOffsetT((len(entries)+2)*2)
-            struct.pack_into('<i',self.Bytes,objpos,self.Offset()-objectOffset)
+            # position recomputed AFTER the prepends: they may have grown (re-based) the buffer
+            struct.pack_into('<i',self.Bytes,len(self.Bytes)-objectOffset,self.Offset()-objectOffset)
             self.vtables.append(self.Offset())
         else:
             struct.pack_into('<i',self.Bytes,objpos,existing-objectOffset)
